@@ -34,7 +34,20 @@ where
       let subscription = Arc::clone(&self.subscription);
       self.subject.set_on_unsubscribe(move |count| {
         if count == 0 {
-          if let Some(sbsc) = &*subscription.read().unwrap() {
+          // disconnect: the connection is taken out of its slot first, so that no
+          // lock is held while the source is unsubscribed and the next first
+          // subscriber connects again
+          // a connection whose source has terminated stays in the slot: the
+          // history is complete then and the source is not started again
+          let sbsc = {
+            let mut subscription = subscription.write().unwrap();
+            if subscription.as_ref().map_or(false, |x| x.is_subscribed()) {
+              subscription.take()
+            } else {
+              None
+            }
+          };
+          if let Some(sbsc) = sbsc {
             sbsc.unsubscribe();
           }
         }
@@ -52,12 +65,7 @@ where
         let sbj_error = subject.clone();
         let sbj_complete = subject.clone();
 
-        let mut subscription = subscription.write().unwrap();
-        if subscription.is_some() {
-          return;
-        }
-
-        *subscription = Some(source.subscribe(
+        let observer = Observer::new(
           move |x| {
             sbj_next.next(x);
           },
@@ -67,7 +75,23 @@ where
           move || {
             sbj_complete.complete();
           },
-        ));
+        );
+        {
+          let mut subscription = subscription.write().unwrap();
+          if subscription.is_some() {
+            return;
+          }
+          // the connection is recorded before the source runs, and the source is
+          // subscribed with no lock held: a synchronous source may make the last
+          // subscriber leave (hence disconnect) from inside its subscribe
+          let unsub_observer = observer.clone();
+          let issub_observer = observer.clone();
+          *subscription = Some(Subscription::new(
+            move || unsub_observer.unsubscribe(),
+            move || issub_observer.is_subscribed(),
+          ));
+        }
+        source.inner_subscribe(observer);
       }
     });
   }
